@@ -1,5 +1,6 @@
 pub mod c01;
 pub mod c17;
+pub mod c18;
 
 use crate::runner::{drive, replay, Tier};
 use std::path::Path;
@@ -17,6 +18,7 @@ pub fn dispatch(id: &str, tier: Tier, replay_file: Option<&Path>) -> i32 {
     match id {
         "C01" => go!(c01),
         "C17" => go!(c17),
+        "C18" => go!(c18),
         _ => {
             eprintln!("unknown property {id}");
             2
